@@ -5,6 +5,22 @@ comments / blanks / newlines at token boundaries (outside `[...]` and `#define` 
 refer to each other, and split the text over several load() calls.  Signature of a loaded set: for every user name the
 resolved type's kind, size, alignment, fields (names, types, offsets, bit widths), enum members, a probe parse, and which
 names denote the very same type object.  The Lean model covers the comment stripper and the alias table (`resolve`).
+
+Added probe families (helpers in harness/s5_c13.py):
+ * rich comments (`layout-rich`, `order+layout-rich`, `one-comment` mutants): every token boundary gets 1..4 adjacent pieces of white
+   space / block comments / line comments whose bodies are drawn from fragments containing `//`, `/*`, `*/` (line comments), quotes,
+   stars, slashes, newlines, URLs and definition-like text; also a comment before the first and after the last token (a final line
+   comment without newline).  `one-comment` puts a single such separator at one boundary of the baseline text (a minimal witness).
+   Newlines inside an enum member stay excluded exactly as before (finding F20).  Struct typedefs now also declare several names.
+ * re-declaration probes: an environment binds names through every declaration form (typedef scalar, typedef chain, struct/union,
+   typedef struct tag {...} a, b, c, typedef of an anonymous struct, enum, flag, body-less typedefs) in one text or several load()
+   calls with their own options; then one bound name (or a built-in) is re-declared through one of the forms, in a further load() or
+   at the end of the same text: the same target (decided by identity of the resolved types) must be accepted, a different one must
+   raise, and afterwards every name still resolves to the very same type (object identity / description / alias partition) and all
+   names introduced by one accepted struct typedef are the very same type.
+ * load() option histories: 2..4 generated definition sets that do not refer to each other, each with its own load() keyword options
+   (align=, compiled=), loaded into one instance in shuffled orders, sometimes with failing load() calls in between: every set must
+   have the signature it has when loaded with its own options into a fresh instance.
 """
 from __future__ import annotations
 
@@ -269,7 +285,7 @@ def toposort_variants(items, rnd, k):
     return outs
 
 
-KINDS = ["layout", "layout", "layout", "order", "order+layout", "split", "layout-rich", "layout-rich", "order+layout-rich", "one-comment", "one-comment"]
+KINDS = ["layout", "layout", "layout", "order", "order+layout", "split", "one-comment", "one-comment", "layout-rich", "layout-rich", "order+layout-rich"]
 
 
 def describe_norm(dc):
@@ -360,7 +376,10 @@ def run(env) -> Result:
                 "pointers, arrays and earlier types, struct/union with scalar, multi-word, pointer, array, bit-field and inline nested members, "
                 "typedef struct with alias); mutants: random comment/blank/newline separators at every token boundary (outside [...] and "
                 "#define lines), dependency-respecting permutations, the text split over several load() calls; alias laws on built-in synonyms, "
-                "typedef chains, re-declaration, unknown and cyclic aliases. distinct = (definition set, mutant text); non-trivial = >= 3 items")
+                "typedef chains, re-declaration, unknown and cyclic aliases. distinct = (definition set, mutant text); non-trivial = >= 3 items. "
+                "rich comment mutants (bodies with //, /*, */, quotes, stars, slashes, newlines, adjacent comments, comment at start/end of text, "
+                "single-comment mutants); re-declaration probes (every declaration form x same/different target x same text / later load()); "
+                "load() option histories (independent definition sets with their own align=/compiled= options, shuffled, vs. a fresh instance each)")
     dc = impl.dc()
     rnd = mkrng(env["seed"], "c13")
     tier = env["tier"]
@@ -427,8 +446,8 @@ def run(env) -> Result:
             if "layout" in kind or kind == "one-comment":
                 lines.append(sx([A("stripcomments"), text]))
                 metas.append(("strip", text, dc.parser.TokenParser._remove_comments(text)))
-    redeclaration_probes(res, viol, dc, mkrng(env["seed"], "c13-redeclare"), 150 if tier == "quick" else 4000)
-    option_history_probes(res, viol, dc, mkrng(env["seed"], "c13-options"), 40 if tier == "quick" else 1200)
+    redeclaration_probes(res, viol, dc, mkrng(env["seed"], "c13-redeclare"), 150 if tier == "quick" else 2400)
+    option_history_probes(res, viol, dc, mkrng(env["seed"], "c13-options"), 40 if tier == "quick" else 600)
     # ---- alias laws
     cs = dc.cstruct()
     for name, target in cs.typedefs.items():
@@ -496,5 +515,43 @@ def run(env) -> Result:
 
 
 def replay(body) -> int:
-    print("replay:", body.get("what"), body.get("case"))
+    """re-evaluate a recorded case of the layout / redeclare / options families on the current tree: 1 = it still fails"""
+    print("replay:", body.get("what"))
+    case = body.get("case") or {}
+    dc = impl.dc()
+    fam = case.get("family")
+    if fam == "layout":
+        probe = bytes.fromhex(case["probe"])
+        names = set(case["names"])
+        cs0 = dc.cstruct()
+        cs0.load(case["baseline"])
+        base = signature(cs0, names, probe, dc)
+        cs = dc.cstruct()
+        try:
+            for t in case.get("loads") or [case["mutant"]]:
+                cs.load(t)
+        except Exception as e:  # noqa: BLE001
+            print(f"still fails: the mutated text is rejected ({type(e).__name__}: {e})")
+            return 1
+        got = signature(cs, names, probe, dc)
+        if got != base:
+            print("still fails: the signatures differ")
+            return 1
+    elif fam == "redeclare":
+        problems, outcome = s5.eval_redeclaration(dc, describe_norm(dc), case["environment"], case["redeclaration"], case["redeclaration_options"],
+                                                  case["expect"], case["names"], case["new_names"], case["same_text"])
+        for p in problems:
+            print("still fails:", p)
+        if problems:
+            return 1
+    elif fam == "options":
+        problems = s5.eval_option_history(dc, signature, case["groups"], case["history"], bytes.fromhex(case["probe"]))
+        for p in problems:
+            print("still fails:", p[1])
+        if problems:
+            return 1
+    else:
+        print(case)
+        return 0
+    print("the case passes on this tree")
     return 0
